@@ -1,32 +1,16 @@
-"""Per-property and per-engine configuration of ./check (kept apart from the driver logic)."""
+"""Loads the per-property configuration files cfg/Cnn.py (PROP, ENGINES, TEXT) used by ./check and tools_manifest.py."""
+import importlib.util, os
 
-ENGINES = {
-    # engine -> options.  spec_is_oracle: any gating difference between implementation and Lean spec is by itself a
-    # failure of the property (the spec *is* the property's oracle).  prop_failure(case, impl, spec): engine-specific
-    # rule telling a property failure from a mere correspondence difference.  op_sep: separator for shrinking.
-    "wire": {
-        "jobs": 8,
-        # a decoder that accepts what the proved decoder rejects, or the other way round, breaks C20's
-        # "received exactly as sent / garbage is answered with a protocol error"
-        "prop_failure": lambda case, impl, spec: (impl.startswith("ok ") != spec.startswith("ok "))
-        and case.split(" ")[0] in ("req", "resp", "frame"),
-    },
-}
-
-PROPS = {
-    "C20": {
-        "engines": ["wire"],
-        "lean_modules": ["AxVerif.Model.Wire", "AxVerif.Model.Bytes", "AxVerif.Lemmas.Wire", "AxVerif.Lemmas.Bytes"],
-        "rule": "cases = well-formed Request/Response values of every variant (encode bytes + decode∘encode), byte strings "
-                "(random, any-opcode, lossy strings, Rows with chosen counts, mutated valid encodings) through both decoders, "
-                "frames around the 16 MiB cap; all derived from VERIF_SEED. Non-trivial = every case except plain short "
-                "write_message calls; distinct = distinct case line.",
-        "assumptions": [
-            "strings are modelled as UTF-8 byte lists; from_utf8_lossy is modelled by `lossy` (maximal-subpart replacement) and tied by the `bytes-string-lossy` cases",
-            "a zero-column Rows message may announce up to 2^32 empty rows; it is a valid (enormous) message and is kept out of generation",
-            "query_result_to_response (server binary) is covered only by the WfResp hypothesis, not executed",
-        ],
-        "partial": "",
-        "trusted": ["child processes run under RLIMIT_AS = 4 GiB; an allocation beyond it is observed as `abort`"],
-    },
-}
+ROOT = os.path.dirname(os.path.abspath(__file__))
+PROPS, ENGINES, TEXT = {}, {}, {}
+for fn in sorted(os.listdir(os.path.join(ROOT, "cfg"))):
+    if not fn.endswith(".py"):
+        continue
+    spec = importlib.util.spec_from_file_location("cfg_" + fn[:-3], os.path.join(ROOT, "cfg", fn))
+    m = importlib.util.module_from_spec(spec)
+    spec.loader.exec_module(m)
+    pid = fn[:-3]
+    if hasattr(m, "PROP"):
+        PROPS[pid] = m.PROP
+        TEXT[pid] = m.TEXT
+    ENGINES.update(getattr(m, "ENGINES", {}))
